@@ -17,6 +17,8 @@ DEF = B.DEFAULT_CFG
 DEF_NOSSE = dict(B.DEFAULT_CFG, sse2=0)
 MID = dict(B.DEFAULT_CFG, l1=32768, l2=262144, l3=1048576)
 ASAN = 'address,undefined'
+# a last-level cache whose derived block size (316) and Strassen cut-off (632) are NOT multiples of 64
+ODD = dict(B.SMALL_CACHE, l3=100000)
 
 
 def mk(fn, q, t, tables=None, **kw):
@@ -52,6 +54,7 @@ def runs_c03(tier):
 def runs_c04(tier):
     return [(DEF, None, mk(S.suite_trsm, 500, 8000, big=False), []),
             (SC, None, mk(S.suite_trsm, 200, 3000, big=True), []),
+            (ODD, None, mk(S.suite_trsm, 120, 1500, big=True), []),
             (SC_NOSSE, ASAN, mk(S.suite_trsm, 120, 1500, big=True), [])]
 
 
@@ -139,7 +142,7 @@ def runs_c12(tier):
         S.suite_ple_recursive(g, n(tier, 14, 150))      # block-recursive PLE regime of the small-cache configurations
     # a last-level cache of 768 MiB (large server parts): cache-size arithmetic beyond 2^29 bytes
     HUGE = dict(DEF, l2=2097152, l3=805306368)
-    cfgs = [DEF, SC, SC_NOSSE, MID, B.thread_safe(SC), dict(SC, l1=4096, l2=262144, l3=1048576), HUGE]
+    cfgs = [DEF, SC, SC_NOSSE, MID, B.thread_safe(SC), dict(SC, l1=4096, l2=262144, l3=1048576), HUGE, ODD]
     if tier != Q:
         cfgs += [DEF_NOSSE, B.thread_safe(DEF), dict(DEF, l1=4096), dict(MID, sse2=0), dict(SC, l2=65536),
                  B.with_openmp(SC), B.with_openmp(DEF), dict(DEF, l2=4194304, l3=1 << 30), dict(DEF, l2=4194304, l3=1 << 32)]
